@@ -317,14 +317,15 @@ func shrink(s *Spec, policy int, class string, first *hit) (*Spec, *hit, int) {
 func shapeOf(s *Spec, h *hit) string {
 	// where does the mismatch materialise when pass-through nodes are transparent?
 	tr := simulate(s, paramsFor(s, h.Key), values[h.Key.In], nil)
+	// (the run stops at the first mismatch; only an accepted statically decidable
+	// mismatch is named after the statically decidable one)
 	f := h.V.Fail
 	for i := range tr.Fails {
-		if i == 0 || tr.Fails[i].static {
-			f = &tr.Fails[i]
+		if h.V.Class == "error-after-compile" && !tr.Fails[i].static {
+			continue
 		}
-		if tr.Fails[i].static {
-			break
-		}
+		f = &tr.Fails[i]
+		break
 	}
 	// a branch added on a pass-through node that already had a typed neighbour of
 	// another type: the one construction feature left that re-types an inferred node
@@ -428,13 +429,13 @@ func TestCheck(t *testing.T) {
 			"the reference lattice is reflect's AssignableTo/Implements (must / may / must-not); a connection is judged between the declared types of its two ends, a pass-through node carrying the type eino reports for it in GraphInfo provided that type is the type of a typed neighbour of the node's pass-through component (otherwise the node is transparent)",
 			"only soundness is judged: accepted ⇒ no panic, an ordinary error exactly when a dynamic value is not assignable across a may-connection; rejections of constructions the order-independent (transparent) reference considers well typed are only counted (info_completeness_*)",
 			"a nil interface value has no dynamic type and is not generated; runs whose failure would be legitimate for another reason (input key absent from the map, several non-map chunks to concatenate) are not generated or counted as unjudged",
-		}, cfg.Pick(60, 2000))
+		}, cfg.Pick(100, 2000))
 	defer func() {
 		if err := rep.Flush(); err != nil {
 			t.Fatalf("flush: %v", err)
 		}
 	}()
-	n := int64(cfg.Pick(25, 500))
+	n := int64(cfg.Pick(40, 500))
 	rep.Cases(n, func(idx int64, rng *mon.Rand) {
 		runCase(rep, idx, rng)
 	})
